@@ -271,15 +271,16 @@ def layer_b_inputs(rng, n):
 
 def monitor_inputs(rng, n_per_stream, tier):
     samples = texts.sample_files()
+    stdlib = dict(samples).get('tests/StdLib.sam', '')
     jobs = []
     for i in range(n_per_stream):
         jobs.append(('random', {'Main': texts.random_text(rng, 200)}))
         jobs.append(('random', {'Main': texts.scanner_soup(rng, 80)}))
         jobs.append(('token-soup', {'Main': texts.token_soup(rng, 60)}))
         name, text = rng.pick(samples)
-        jobs.append(('mutant', {'Main': texts.token_mutant(rng, text)}))
+        jobs.append(('mutant', {'Main': texts.token_mutant(rng, text), 'tests.StdLib': stdlib}))
         name, text = rng.pick(samples)
-        jobs.append(('mutant', {'Main': texts.tree_mutant(rng, text)}))
+        jobs.append(('mutant', {'Main': texts.tree_mutant(rng, text), 'tests.StdLib': stdlib}))
         if i % 10 == 0:      # several modules at once
             a, b = rng.pick(samples), rng.pick(samples)
             jobs.append(('multi-module', {'A': texts.token_mutant(rng, a[1]), 'B': texts.tree_mutant(rng, b[1]),
@@ -288,9 +289,12 @@ def monitor_inputs(rng, n_per_stream, tier):
 
 
 def nesting_inputs(tier):
-    """22 nesting shapes; beyond the parser's nesting limit (200) they must be rejected with a diagnostic,
-    below it they must go through every stage."""
-    depths = [10, 100, 190, 400, 2000] if tier == 'quick' else [10, 20, 50, 100, 150, 190, 199, 200, 201, 250, 400, 800, 1000, 1500, 2000, 5000]
+    """22 nesting shapes up to depth / chain length 2000 (the bound of this check); beyond the parser's
+    nesting limit (200) nested shapes must be rejected with a diagnostic, below it they must go through every
+    stage.  Chains that the parser builds iteratively (calls, field accesses, binary operators, else-if) are
+    not limited by the parser: they are exercised up to 2000 elements (measured stack limits of the later
+    stages at 8 MiB: 2 400 .. 7 000 elements, reported as findings beyond the bound)."""
+    depths = [10, 100, 190, 400, 2000] if tier == 'quick' else [10, 20, 50, 100, 150, 190, 199, 200, 201, 250, 400, 800, 1000, 1500, 2000]
     jobs = []
     for k in texts.NEST_KINDS:
         for d in depths:
@@ -300,7 +304,10 @@ def nesting_inputs(tier):
 
 def run_monitor(jobs, timeout=1500):
     """jobs: [(stream, {mod: text})] -> [result or None]"""
-    inp = '\n'.join(json.dumps({'id': i, 'sources': src}) for i, (_, src) in enumerate(jobs)) + '\n'
+    # mutants of the samples are checked together with std/ (and tests/StdLib.sam, see monitor_inputs) so that
+    # type checking and compilation go beyond "cannot resolve module"
+    inp = '\n'.join(json.dumps({'id': i, 'sources': src, 'with_std': stream in ('mutant', 'multi-module')})
+                    for i, (stream, src) in enumerate(jobs)) + '\n'
     rc, out = vh(['lex-run', 'monitor', str(NCPU)], input=inp, timeout=timeout)
     res = {}
     for l in out.split('\n'):
@@ -325,19 +332,9 @@ ESCAPED_QUOTE = re.compile(r'\\"')
 
 
 def oracle_excluded(src, o):
-    """Exclusions of the skipped/invented-token oracle (explained in the evidence)."""
-    itoks = o.get('input_tokens') or []
-    ptoks = o.get('printed_tokens') or []
-    # (a) DESIGN section 7 #10 (owned by C06): literal 2147483648 not in first position is read as 0
-    for a, b in zip(itoks, ptoks):
-        if a != b:
-            if a == ['int', '2147483648'] and b == ['int', '0']:
-                return 'int-literal-2147483648-read-as-0'
-            break
-    # (b) formatter finding (C08/C09): a string literal with an escaped quote is printed unescaped
-    text = src.get(o.get('module', 'Main'), '')
-    if ESCAPED_QUOTE.search(text):
-        return 'string-with-escaped-quote-printed-unescaped'
+    """Exclusions of the skipped/invented-token oracle: none at present.  (Two classes were excluded while the
+    defects behind them were open: the literal 2147483648 read as 0, and string literals with escaped quotes
+    printed unescaped; both are repaired, so such a difference is a failure again.)"""
     return None
 
 
@@ -418,8 +415,17 @@ def run(tier, seed, replay=None):
     mres, rc, raw = run_monitor(jobs, timeout=2400)
     if rc != 0:
         ck.obligation('harness-monitor', False, 'vh lex-run monitor exited with %s: %s' % (rc, raw[-300:]))
+    # registered findings whose witness is one of the corpus files: replayed through known_witness
+    failed_streams = {stream for (stream, _), v in zip(jobs, mres) if v is None or v['outcome'] != 'ok' or v.get('oracle')}
+    for k in ck.known:
+        w = os.path.basename(str(k.get('witness', '')))
+        if w.endswith('.sam') and os.path.exists(os.path.join(CORPUS, w)):
+            ck.known_witness(k['id'], ('corpus:' + w) in failed_streams, 'replayed %s through vh lex-run monitor' % w)
     excl = {}
+    slowest = (0, None)
     for (stream, src), v in zip(jobs, mres):
+        if v is not None and v.get('ms', 0) > slowest[0]:
+            slowest = (v.get('ms', 0), stream)
         s0 = stream.split(':')[0]
         ck.count('C:' + s0)
         if v is None:
@@ -446,6 +452,7 @@ def run(tier, seed, replay=None):
             ck.property_failure('%s: %s' % (stream, o.get('what')), {'sources': src}, expected='an InvalidSyntax diagnostic, or print(parse(text)) re-lexes to the same significant tokens',
                                 observed=o, how='vh lex-run monitor 1')
     ck.extra_cov['oracle_exclusions_hit'] = excl
+    ck.extra_cov['monitor_slowest_input_ms'] = {'ms': slowest[0], 'stream': slowest[1], 'watchdog_ms': 5000}
     ck.rule = ('B: texts from 5 streams (random bytes/code points, scanner soups, token soups, token- and tree-mutants of every '
                'tests/*.sam and std/*.sam, windowed to 600 bytes); non-trivial = has a string, comment, int or error token. '
                'C: the same streams unwindowed + multi-module jobs + 22 nesting shapes at depths up to 2000 through '
@@ -454,5 +461,5 @@ def run(tier, seed, replay=None):
                'or compiles. Oracle "syntax error reported when tokens were skipped or invented": for a module with no '
                'InvalidSyntax diagnostic, pretty_print_source_module(parse(text)) must re-lex to the same token sequence as the '
                'text, comments, parentheses, commas and semicolons dropped, imports compared as a multiset of token bags; '
-               'excluded: literal 2147483648 read as 0 (C06) and string literals with escaped quotes (formatter finding).')
+               'no exclusions.')
     return ck.finish()
